@@ -202,7 +202,7 @@ class Table:
                     if a.kind == "const" and isinstance(a.a, bool):
                         v = Val("const", not a.a)
                     else:
-                        v = Val("sym", "!%s" % (a.a,))
+                        v = Val("sym", "!%s" % vdesc(a))
                 elif k == "discr":
                     v = Val("discr", (canon_place(body, rv["place"], {}), norm(rv.get("adt", ""))))
                 elif k == "aggregate":
@@ -223,9 +223,9 @@ class Table:
                                  "Gt": a.a > b.a, "Ge": a.a >= b.a}.get(op)
                         except TypeError:
                             r = None
-                        v = Val("const", r) if r is not None else Val("sym", "%s(%r,%r)" % (op, a.a, b.a))
+                        v = Val("const", r) if r is not None else Val("sym", "%s(%s,%s)" % (op, vdesc(a), vdesc(b)))
                     else:
-                        v = Val("sym", "%s(%s,%s)" % (rv["op"], a.a, b.a))
+                        v = Val("sym", "%s(%s,%s)" % (rv["op"], vdesc(a), vdesc(b)))
                 elif k in ("ref", "rawptr"):
                     pl = rv["place"]
                     if not pl["p"] and pl["l"] in env:
@@ -257,9 +257,9 @@ class Table:
             if k == "call":
                 nm = norm(t.get("resolved") or t.get("callee") or "<fnptr>")
                 args = [self.val_of_operand(a, env) for a in t["args"]]
-                desc = "%s(%s)" % (nm.split("::")[-1], ",".join(str(a.a) for a in args))
+                desc = "%s(%s)" % (nm.split("::")[-1], ",".join(vdesc(a) for a in args))
                 if not t["dst"]["p"]:
-                    env[t["dst"]["l"]] = Val("sym", ("call", nm, desc))
+                    env[t["dst"]["l"]] = Val("call", (nm, desc))
                 if t["target"] is None:
                     return
                 return walk(t["target"], env, cons, onpath | {bb})
@@ -299,7 +299,7 @@ class Table:
                         walk(t["otherwise"], env, cons + [("not", key, tuple(sorted(set(listed) | prior_not)))], onpath | {bb})
                     return
                 # opaque condition
-                desc = str(d.a)
+                desc = vdesc(d)
                 for v, tgt in t["targets"]:
                     prev = [c for c in cons if c[0] == "cond" and c[1] == desc]
                     if prev and prev[0][2] != v:
@@ -318,8 +318,23 @@ class Table:
         walk(0, {}, [], frozenset())
 
 
+def vdesc(v):
+    """Readable description of an abstract value (used in condition constraints)."""
+    if v.kind == "const":
+        return repr(v.a) if not isinstance(v.a, tuple) else "%s:%s" % (v.a[0], v.a[1])
+    if v.kind == "call":
+        return v.a[1]
+    if v.kind == "agg":
+        return render(v)
+    if v.kind == "discr":
+        return "discr(%s)" % v.a[0]
+    return str(v.a)
+
+
 def render(v):
     """Render an abstract value compactly: constants, enum variants (nested)."""
+    if v.kind == "call":
+        return "call:" + v.a[1]
     if v.kind == "const":
         return repr(v.a)
     if v.kind == "agg":
@@ -328,8 +343,6 @@ def render(v):
         if fields:
             return "%s(%s)" % (nm, ", ".join(render(f) for f in fields))
         return nm
-    if v.kind == "sym" and isinstance(v.a, tuple) and v.a and v.a[0] == "call":
-        return "call:" + v.a[2]
     return "%s:%s" % (v.kind, v.a)
 
 
